@@ -1,0 +1,103 @@
+//! Verification hooks (compiled only with `--cfg clarabel_verif`).
+//!
+//! Provides a thread-local event sink into which the solver emits one event per
+//! step of its control skeleton, a thread-local fault script consulted at a few
+//! points of the main loop, and public wrappers / read-only accessors around
+//! crate-private components so that an external conformance harness can observe
+//! them.  Nothing here changes solver behaviour unless a script is installed.
+#![allow(missing_docs)]
+#![allow(non_snake_case)]
+
+use std::cell::RefCell;
+
+/// A generic trace event: a name plus integer, float, vector and string payloads.
+#[derive(Clone, Debug, Default)]
+pub struct Event {
+    pub name: &'static str,
+    pub i: Vec<i64>,
+    pub f: Vec<f64>,
+    pub v: Vec<Vec<f64>>,
+    pub s: Vec<String>,
+}
+
+thread_local! {
+    static SINK: RefCell<Option<Vec<Event>>> = const { RefCell::new(None) };
+    static SCRIPT: RefCell<Vec<(String, u32, f64)>> = const { RefCell::new(Vec::new()) };
+    static DETAIL: RefCell<usize> = const { RefCell::new(0) };
+}
+
+/// Start recording on this thread (discarding anything recorded before).
+pub fn start() {
+    SINK.with(|s| *s.borrow_mut() = Some(Vec::new()));
+}
+
+/// Stop recording on this thread and return the events in program order.
+pub fn take() -> Vec<Event> {
+    SINK.with(|s| s.borrow_mut().take().unwrap_or_default())
+}
+
+/// True when a recording is active on this thread.
+pub fn is_on() -> bool {
+    SINK.with(|s| s.borrow().is_some())
+}
+
+/// Maximum vector length that is copied into events (0: no vectors).
+pub fn set_detail(n: usize) {
+    DETAIL.with(|d| *d.borrow_mut() = n);
+}
+
+pub fn detail() -> usize {
+    DETAIL.with(|d| *d.borrow())
+}
+
+/// Append an event (no-op when not recording).
+pub fn emit(e: Event) {
+    SINK.with(|s| {
+        if let Some(v) = s.borrow_mut().as_mut() {
+            v.push(e);
+        }
+    });
+}
+
+pub fn emit_simple(name: &'static str, i: &[i64], f: &[f64]) {
+    if is_on() {
+        emit(Event {
+            name,
+            i: i.to_vec(),
+            f: f.to_vec(),
+            ..Default::default()
+        });
+    }
+}
+
+/// Install a fault script: entries `(point, iteration, value)`.
+pub fn set_script(script: Vec<(String, u32, f64)>) {
+    SCRIPT.with(|s| *s.borrow_mut() = script);
+}
+
+/// Scripted value for `(point, iter)`, if any.
+pub fn script(point: &str, iter: u32) -> Option<f64> {
+    SCRIPT.with(|s| {
+        s.borrow()
+            .iter()
+            .find(|(p, i, _)| p == point && *i == iter)
+            .map(|(_, _, v)| *v)
+    })
+}
+
+/// `ok`, unless the script forces a failure at `(point, iter)`.
+pub fn fault_bool(point: &str, iter: u32, ok: bool) -> bool {
+    if script(point, iter).is_some() {
+        false
+    } else {
+        ok
+    }
+}
+
+pub fn f64_of<T: num_traits::ToPrimitive>(x: T) -> f64 {
+    x.to_f64().unwrap_or(f64::NAN)
+}
+
+pub fn vec_of<T: num_traits::ToPrimitive + Copy>(x: &[T]) -> Vec<f64> {
+    x.iter().map(|v| f64_of(*v)).collect()
+}
